@@ -2,6 +2,7 @@ import BeffVerif.Props.C05
 import BeffVerif.Props.C05Flat
 import BeffVerif.Props.C05Tuple
 import BeffVerif.Props.C05Union
+import BeffVerif.Props.C05ListUnion
 open BeffVerif.C05
 #print axioms litInter_has
 #print axioms litUnion_has
@@ -24,3 +25,5 @@ open BeffVerif.C05
 #print axioms BeffVerif.C05Union.check_many
 #print axioms BeffVerif.C05Union.sem_step
 #print axioms BeffVerif.C05Union.keys_fold_gen
+#print axioms BeffVerif.C05ListUnion.fixed_many
+#print axioms BeffVerif.C05ListUnion.sem_step_l
